@@ -2,6 +2,7 @@ package scn
 
 import (
 	"encoding/json"
+	"strconv"
 	"strings"
 )
 
@@ -31,6 +32,7 @@ type Config struct {
 	Must        bool   `json:"must,omitempty"`         // compile through MustCompile instead of Compile
 	ColdProcess bool   `json:"cold_process,omitempty"` // goroutine mode: executed in a pristine child process, and the reference outcomes are computed AFTER the concurrent phase, so that the tasks meet a package nobody has warmed up (lazily initialised tables)
 	Pristine    bool   `json:"pristine,omitempty"`     // also compute every reference outcome in a pristine child process
+	SyncBias    bool   `json:"sync_bias,omitempty"`    // walk strategy: switch with probability 1/2 whenever the running task announces a lock, pool or atomic operation
 	LooseMoveTo bool   `json:"loose_moveto,omitempty"` // the navigators' MoveTo does not check that the other navigator is on the same document: it adopts the other's document and position
 }
 
@@ -374,7 +376,11 @@ func GenC04(seed, run uint64, ok CompileOK) *Scenario {
 		longValueRun(r, s, ok)
 	}
 	nsteps := r.Range(6, 60)
-	w := []int{r.Range(2, 8), r.Range(2, 10), r.Range(4, 14), r.Range(0, 3), r.Range(1, 5), 0, 0}
+	w := []int{r.Range(2, 8), r.Range(2, 10), r.Range(4, 14), r.Range(0, 3), r.Range(1, 5), 0, 0, 0}
+	if r.Chance(1, 8) {
+		w[7] = r.Range(1, 3) // gc: a garbage collection between two operations (finalizers of abandoned iterators run)
+		w[3] += 3            // with iterators abandoned before it
+	}
 	if focus != "" {
 		w[1] += 10 // many Evaluate calls from many context nodes
 		w[4] += 4
@@ -408,6 +414,8 @@ func GenC04(seed, run uint64, ok CompileOK) *Scenario {
 		case 6:
 			st.Op = "swapcache"
 			st.N = []int{0, 1, 2, 3, 5}[r.Intn(5)]
+		case 7:
+			st.Op = "gc"
 		}
 		s.Steps = append(s.Steps, st)
 	}
@@ -453,7 +461,11 @@ func GenC12(seed, run uint64, ok CompileOK) *Scenario {
 		namespaceRun(r, s, ok, true)
 	}
 	nsteps := r.Range(6, 50)
-	w := []int{r.Range(2, 6), r.Range(2, 6), r.Range(6, 16), r.Range(1, 5), r.Range(1, 5), r.Range(1, 4), r.Range(0, 2), r.Range(1, 4)}
+	w := []int{r.Range(2, 6), r.Range(2, 6), r.Range(6, 16), r.Range(1, 5), r.Range(1, 5), r.Range(1, 4), r.Range(0, 2), r.Range(1, 4), 0}
+	if r.Chance(1, 8) {
+		w[8] = r.Range(1, 3) // gc
+		w[6] += 3            // after abandoning iterators
+	}
 	for i := 0; i < nsteps; i++ {
 		st := Step{E: r.Intn(len(s.Exprs)), D: r.Intn(len(s.Docs)), H: r.Intn(1000)}
 		st.C = ctxFor(r, s.Docs, st.D)
@@ -480,6 +492,8 @@ func GenC12(seed, run uint64, ok CompileOK) *Scenario {
 			st.Op = "abandon"
 		case 7:
 			st.Op = "rel"
+		case 8:
+			st.Op = "gc"
 		}
 		s.Steps = append(s.Steps, st)
 	}
@@ -621,6 +635,15 @@ func genSubject(r *Rng) string {
 var ReplPool = []string{"$1$2x", "<$1$2x>", "$2y$1", "[$10]", "$1x", "$3z$1", "$2$1", "$1", "$2 é $1", "é$1", "[$17]", "$12-$2", "$17$1"}
 
 func genRepl(r *Rng, groups int) string {
+	if groups >= 10 && r.Chance(1, 2) {
+		// size stratum: many references, one- and two-digit ones mixed
+		out := ""
+		for k := r.Range(8, 20); k > 0; k-- {
+			out += "$" + strconv.Itoa(r.Range(1, groups))
+			out += r.Pick([]string{"", "-", "x", " ", "."})
+		}
+		return out
+	}
 	if r.Chance(1, 3) {
 		return r.Pick(ReplPool)
 	}
@@ -807,6 +830,7 @@ func gCfg(r *Rng, c *Config) {
 	if r.Chance(1, 3) {
 		c.LoadSlow = r.Range(1, 4)
 	}
+	c.SyncBias = r.Chance(1, 3)
 }
 
 // GenC16G draws a concurrent key workload.
@@ -995,19 +1019,36 @@ func GenC05(seed, run uint64, ok CompileOK) *Scenario {
 		}
 		s.Tasks = append(s.Tasks, ops)
 	}
-	if r.Chance(1, 8) {
+	if r.Chance(1, 10) {
+		// gc: garbage collections between the operations of some tasks
+		for t := range s.Tasks {
+			if r.Chance(1, 2) {
+				at := r.Intn(len(s.Tasks[t]) + 1)
+				s.Tasks[t] = append(s.Tasks[t][:at:at], append([]Step{{Op: "gc"}}, s.Tasks[t][at:]...)...)
+			}
+		}
+	}
+	if r.Chance(1, 4) {
 		// warm-up: every task repeats one of its evaluations many times
 		// (on the hot expression: code that adapts to a much-used Expr has to cope
 		// with several goroutines crossing its threshold together)
-		op := r.Pick([]string{"eval", "eval", "select"})
+		// - in half of these runs; in the other half every task warms up whatever
+		// its operation uses: several expressions, patterns, documents get hot)
+		op := r.Pick([]string{"eval", "eval", "eval", "select"})
+		sameHot := r.Chance(1, 2)
 		for t := range s.Tasks {
 			i := r.Intn(len(s.Tasks[t]))
 			st := &s.Tasks[t][i]
-			if compileStorm || st.Op == "mustbad" {
+			if compileStorm || st.Op == "mustbad" || st.Op == "gc" {
 				continue
 			}
-			st.Op, st.N, st.Crash = op, 0, 0
-			st.E, st.D, st.C = hotE, hotD, hotC
+			st.Crash = 0
+			if sameHot {
+				st.Op, st.N = op, 0
+				st.E, st.D, st.C = hotE, hotD, hotC
+			} else if st.Op == "compile" {
+				st.Op, st.N = "eval", 0
+			}
 			st.Rep = pickRep(r, 130)
 			if r.Chance(1, 2) {
 				st.Rep = []int{33, 64, 65, 100, 129}[r.Intn(5)]
